@@ -57,6 +57,18 @@ def seeded_entries():
     return out
 
 
+def benign_entries():
+    """The independently written behaviour-preserving refactorings under /verif/benign that the checks are silent on (the rest
+    is the measured residue of 11.7): the property each was written against must keep its verdict."""
+    p = os.path.join(VERIF, 'benign', 'INDEX.json')
+    out = []
+    if os.path.exists(p):
+        for name, e in sorted(json.load(open(p)).items()):
+            if e.get('verdict') == 'silent':
+                out.append(('ben-' + name, [e['property']], os.path.join(VERIF, 'benign', name, 'patch.diff'), None, None, e.get('summary', '')[:160]))
+    return out
+
+
 def one(entry, kind, baseline):
     mid, props, rel, old, new, note = entry
     d = make_copy()
@@ -95,7 +107,7 @@ def one(entry, kind, baseline):
 def run_for(pid, seed=0, jobs=16):
     """Kill matrix of one property's rules: (results, n_mutants, n_killed, n_benign, n_silent)."""
     muts = [(e[0], [pid]) + tuple(e[2:]) for e in list(catalog.MUTANTS) + seeded_entries() if pid in e[1]]
-    ben = [(e[0], [pid]) + tuple(e[2:]) for e in catalog.BENIGN if pid in e[1]]
+    ben = [(e[0], [pid]) + tuple(e[2:]) for e in list(catalog.BENIGN) + benign_entries() if pid in e[1]]
     rnd = random.Random(seed)
     rnd.shuffle(muts)
     rnd.shuffle(ben)
@@ -134,7 +146,7 @@ def main():
             if props:
                 out.append((e[0], props) + tuple(e[2:]))
         return out
-    muts, ben = sel(list(catalog.MUTANTS) + seeded_entries()), sel(catalog.BENIGN)
+    muts, ben = sel(list(catalog.MUTANTS) + seeded_entries()), sel(list(catalog.BENIGN) + benign_entries())
     rnd = random.Random(a.seed)
     rnd.shuffle(muts)
     rnd.shuffle(ben)
